@@ -4,6 +4,7 @@ package main
 
 import (
 	"fmt"
+	"go/types"
 	"regexp"
 	"sort"
 	"strings"
@@ -264,6 +265,7 @@ func checkC14(p *Prog, rp *Report) {
 		fillProblems(e, "deb.Deb.ControlExt/DataExt", pos, extProblems, "36 encoding combinations")
 		fillProblems(dt, "deb.Deb.Data", pos, dataProblems, "no read on the data stream during Load in 36 combinations")
 	}
+	c14File(p, rp)
 	// IsTarfile table
 	if fn := p.Method("deb", "ArEntry", "IsTarfile"); fn != nil {
 		entT := p.Named("deb", "ArEntry")
@@ -715,4 +717,110 @@ func instrIndex(ins ssa.Instruction) int {
 		}
 	}
 	return -1
+}
+
+// c14File: LoadFile is os.Open plus Load: a package that os.Open can open is loaded, whatever kind of directory
+// entry names it (a symbolic link into a pool is how archives are laid out), and the file is closed when Load fails.
+func c14File(p *Prog, rp *Report) {
+	r := rp.Rule("C14-FILE", "LoadFile loads what os.Open opens (a package reached through a symbolic link included)", 1)
+	fn := p.Func("deb", "LoadFile")
+	load := p.Func("deb", "Load")
+	debT := p.Named("deb", "Deb")
+	if fn == nil || load == nil || debT == nil {
+		r.bad("deb.LoadFile", "", "function not found", nil)
+		return
+	}
+	pos := p.Pos(fn.Pos())
+	var problems []string
+	for _, loadOK := range []bool{true, false} {
+		m := NewMachine(p, nil)
+		installStringModels(m)
+		installIOGlobals(m)
+		ifT := types.NewPointer(types.Typ[types.Int])
+		closed := 0
+		var opened []string
+		m.Hooks["os.Open"] = func(m *Machine, st *State, call *ssa.CallCommon, args []Val) ([]Val, bool) {
+			s, _ := args[0].(string)
+			opened = append(opened, s)
+			id := st.alloc(types.Typ[types.Int], OpaqueV{"file:" + s})
+			return []Val{&TupleV{E: []Val{Ptr{Obj: id}, nilV{}}}}, true
+		}
+		info := func(kind string) HookFn {
+			return func(m *Machine, st *State, call *ssa.CallCommon, args []Val) ([]Val, bool) {
+				id := st.alloc(types.Typ[types.Int], OpaqueV{"fileinfo:" + kind})
+				return []Val{&TupleV{E: []Val{IfaceV{T: ifT, V: Ptr{Obj: id}}, nilV{}}}}, true
+			}
+		}
+		m.Hooks["os.Lstat"] = info("symlink") // the name is a symbolic link ...
+		m.Hooks["os.Stat"] = info("regular")  // ... to a regular file
+		m.Hooks["(*os.File).Stat"] = info("regular")
+		m.Hooks["(*os.File).Close"] = func(m *Machine, st *State, call *ssa.CallCommon, args []Val) ([]Val, bool) {
+			closed++
+			return []Val{nilV{}}, true
+		}
+		const modeSymlink, modeDir, modeType = int64(1) << 27, int64(1) << 31, int64(0x8f280000)
+		m.Hooks["(io/fs.FileMode).IsRegular"] = func(m *Machine, st *State, call *ssa.CallCommon, args []Val) ([]Val, bool) {
+			v, ok := args[0].(int64)
+			return []Val{v&modeType == 0}, ok
+		}
+		m.Hooks["(io/fs.FileMode).IsDir"] = func(m *Machine, st *State, call *ssa.CallCommon, args []Val) ([]Val, bool) {
+			v, ok := args[0].(int64)
+			return []Val{v&modeDir != 0}, ok
+		}
+		m.Hooks["(io/fs.FileMode).Type"] = func(m *Machine, st *State, call *ssa.CallCommon, args []Val) ([]Val, bool) {
+			v, ok := args[0].(int64)
+			return []Val{v & modeType}, ok
+		}
+		m.InvokeHook = func(m *Machine, st *State, call *ssa.CallCommon, recv Val, args []Val) ([]Val, bool) {
+			kind := debProv(st, recv)
+			switch call.Method.Name() {
+			case "Mode":
+				if kind == "fileinfo:symlink" {
+					return []Val{modeSymlink | 0777}, true
+				}
+				return []Val{int64(0644)}, true
+			case "IsDir":
+				return []Val{false}, true
+			case "Size":
+				return []Val{int64(4096)}, true
+			case "Close":
+				closed++
+				return []Val{nilV{}}, true
+			}
+			return nil, false
+		}
+		loadOK := loadOK
+		m.Hooks[load.String()] = func(m *Machine, st *State, call *ssa.CallCommon, args []Val) ([]Val, bool) {
+			if !loadOK {
+				return []Val{&TupleV{E: []Val{nilV{}, IfaceV{T: errType, V: "not a .deb"}}}}, true
+			}
+			cid := st.alloc(types.Typ[types.Int], OpaqueV{"the-data-closer"})
+			id := st.alloc(debT, mkStruct(debT, map[string]Val{"Closer": IfaceV{T: ifT, V: Ptr{Obj: cid}}}))
+			return []Val{&TupleV{E: []Val{Ptr{Obj: id}, nilV{}}}}, true
+		}
+		st := initState(m, "deb")
+		st.push(fn, []Val{"pool/main/h/hello/hello_1.0_amd64.deb"}, nil)
+		out := m.Run(st)
+		if len(out) != 1 || out[0].Status != stRet {
+			problems = append(problems, "undecided: "+retDesc(out))
+			continue
+		}
+		tv, ok := st.Ret.(*TupleV)
+		if !ok || len(tv.E) != 3 {
+			problems = append(problems, "undecided: unexpected result shape")
+			continue
+		}
+		_, errNil := tv.E[2].(nilV)
+		switch {
+		case loadOK && !errNil:
+			problems = append(problems, "a package that os.Open opens and Load accepts is refused by LoadFile (the name is a symbolic link to a regular file: os.Lstat says symlink, os.Stat says regular)")
+		case loadOK && (len(opened) != 1 || opened[0] != "pool/main/h/hello/hello_1.0_amd64.deb"):
+			problems = append(problems, fmt.Sprintf("LoadFile opens %q, want the path given", opened))
+		case !loadOK && errNil:
+			problems = append(problems, "an error of Load is not returned by LoadFile")
+		case !loadOK && closed == 0:
+			problems = append(problems, "the file is left open when Load fails")
+		}
+	}
+	fillProblems(r, "deb.LoadFile", pos, problems, "the path is opened and loaded; an error of Load is returned and the file closed")
 }
